@@ -467,9 +467,20 @@ func (p *Program) isFieldOf(info *types.Info, e ast.Expr, typ string) bool {
 	if !ok {
 		return false
 	}
+	return structHasField(st, fv, 0)
+}
+
+// structHasField: fv is a field of st, directly or promoted from an embedded struct.
+func structHasField(st *types.Struct, fv *types.Var, depth int) bool {
 	for i := 0; i < st.NumFields(); i++ {
-		if st.Field(i) == fv {
+		f := st.Field(i)
+		if f == fv {
 			return true
+		}
+		if f.Embedded() && depth < 3 {
+			if es, isS := derefType(f.Type()).Underlying().(*types.Struct); isS && structHasField(es, fv, depth+1) {
+				return true
+			}
 		}
 	}
 	return false
@@ -486,10 +497,20 @@ func (p *Program) fieldsTyped(typeName string, pred func(types.Type) bool) []*ty
 		return nil
 	}
 	var out []*types.Var
-	for i := 0; i < st.NumFields(); i++ {
-		if pred(st.Field(i).Type()) {
-			out = append(out, st.Field(i))
+	var walk func(st *types.Struct, depth int)
+	walk = func(st *types.Struct, depth int) {
+		for i := 0; i < st.NumFields(); i++ {
+			f := st.Field(i)
+			if pred(f.Type()) {
+				out = append(out, f)
+			}
+			if f.Embedded() && depth < 3 {
+				if es, isS := derefType(f.Type()).Underlying().(*types.Struct); isS {
+					walk(es, depth+1)
+				}
+			}
 		}
 	}
+	walk(st, 0)
 	return out
 }
